@@ -414,6 +414,10 @@ Fixpoint min_reported (tr : list event) : option N :=
   | _ :: tl => min_reported tl
   end.
 
+(** the latest event of [tr] is the call of thread [t]: nothing happened since *)
+Definition called_last (t : tid) (tr : list event) : bool :=
+  match tr with ECall u _ :: _ => Nat.eqb u t | _ => false end.
+
 Fixpoint chk_C11 (e : env) (tr : list event) : bool :=
   match tr with
   | [] => true
@@ -423,7 +427,7 @@ Fixpoint chk_C11 (e : env) (tr : list event) : bool :=
           (* quiescent query: nothing else pending when it was called nor when it returned *)
           (match len_answer r with
            | Some a =>
-               (if (n_pending older =? 0)%Z && (n_pending tl =? 1)%Z && negb (has_panic older) then
+               (if (n_pending older =? 0)%Z && called_last t tl && negb (has_panic older) then
                   let remaining := if skip_returned older then 0 else e_len e - iv_total (cov e older) in
                   match a with
                   | Some n =>
@@ -514,8 +518,28 @@ Fixpoint cs_scan (s : cs_state) (ls : list label) : bool :=
 Definition chk_C07_mutex (ls : list label) : bool :=
   cs_scan {| cs_ticket := []; cs_in := [] |} (rev ls).
 
-(** ** no panic at all (C16 / C17 domains) *)
+(** ** no panic at all (C17 domain) *)
 Definition chk_no_panic (tr : list event) : bool := negb (has_panic tr).
+
+(** ** C16: no panic except the documented ones (chunk size zero), which must happen; a chunk pull of
+    size zero delivers nothing *)
+Definition is_chunkzero (r : res) : bool :=
+  match r with RPanic PkChunkZero _ => true | _ => false end.
+
+Fixpoint chk_C16 (e : env) (tr : list event) : bool :=
+  match tr with
+  | [] => true
+  | ERet t r _ :: tl =>
+      match split_call t tl with
+      | Some (BufNew c, _) => if c =? 0 then is_chunkzero r else negb (is_panic r)
+      | Some (Loop _ c _, _) => if c =? 0 then is_chunkzero r else negb (is_panic r)
+      | Some (Chunk n _, _) => if n =? 0 then match r with RNone => true | _ => false end else negb (is_panic r)
+      | Some (_, _) => negb (is_panic r)
+      | None => false
+      end && chk_C16 e tl
+  | EFinal _ r _ :: tl => negb (is_panic r) && chk_C16 e tl
+  | _ :: tl => chk_C16 e tl
+  end.
 
 (** ** the checkers restricted to the domain each property quantifies over *)
 
@@ -536,6 +560,7 @@ Definition check_prop (n : N) (e : env) (tr : list event) (ls : list label) : bo
   | 10 => chk_C10 e tr
   | 11 => chk_C11 e tr
   | 12 => if has_loop tr && negb (has_skip tr || has_panic tr) then chk_C12 e tr else true
-  | 16 => chk_no_panic tr
+  | 16 => chk_C16 e tr && chk_C02 e tr && chk_C03 e tr
+  | 17 => chk_no_panic tr
   | _ => true
   end.
